@@ -247,6 +247,19 @@ Definition do_setpub (fl : cflags) (k : cat) (n : Z) (p : option Z) (via_txn : b
     end
   end.
 
+(** A client edits several meta entities of core.Dataset's latest view - of existing datasets, or tombstones of
+    deleted ones - and posts them back in ONE batch to core.Dataset.  The posted ids are pairwise distinct, so the
+    batch stores exactly the versions that one-entity batches in the same order would store (only commit times and
+    batch indexes differ, which nothing here observes); the model writes them one after the other.  updateDataset
+    then walks over ALL posted entities: each is synced on its own, an entity naming no dataset is skipped. *)
+Definition setpub_any (fl : cflags) (k : cat) (n : Z) (p : option Z) : cat :=
+  match read_meta k n with
+  | Some m => core_store fl false k (meta_uri n) (with_pub m p)
+  | None => k
+  end.
+Definition do_setpubm (fl : cflags) (k : cat) (l : list (Z * option Z)) : cat :=
+  fold_left (fun k' (np : Z * option Z) => setpub_any fl k' (fst np) (snd np)) l k.
+
 Definition with_st_kn (k : cat) (st : store) (kn : list uri) : cat :=
   {| k_st := st; k_reg := k_reg k; k_next := k_next k; k_known := kn |}.
 
